@@ -145,8 +145,38 @@ class C01(Prop):
                     lines.append(mito.cmet_line(rng.choice(["auto", "math", "logic", "transform", "tool"]), e))
         return {"lines": lines, "note": "tracer"}
 
+    def _history_case(self, rng, depth):
+        """the same text through every pathway in several orders, twice, on the same and on fresh engines: results
+        must not depend on what was evaluated before"""
+        tools = mito.random_tools(rng)
+        lines = [mito.tables_line(self.facts, mito.TN)]
+        seed = rng.randrange(1, 10 ** 6)
+        cfg = mito.random_cfg(rng)
+        cfg["ros"] = (1000, 1)
+        k = rng.random()
+        if k < 0.35:
+            src = rng.choice(mito.TRUEFALSE_TRACER)
+        elif k < 0.7:
+            src = mito.gen_tracer(rng, depth, "truth", False, True)
+        else:
+            src = mito.gen_tool_call(rng, depth - 1, [n for n, _ in tools] or ["tool1"])
+        for order in rng.sample(mito.ORDERS, 2):
+            lines.append(mito.cfg_line(self.facts, seed, **cfg))
+            for (nm, caps) in tools:
+                lines.append(f"tool {mito.hexs(nm)} {mito.hexs(nm.lower())} {','.join(caps) or '-'}")
+            seq = list(order) + rng.sample(["tool", "transform", "auto"], 2)
+            for _rep in range(2):
+                for pw in seq:
+                    if pw == "logic" and k >= 0.7:
+                        continue      # a tool result may be an opaque constant: not truth-tested in the tracer world
+                    lines.append(mito.met_line(pw, src))
+        return {"lines": lines, "note": "history"}
+
     def generate(self, rng, tier, n):
         for i in range(n):
+            if i % 6 == 3:
+                yield self._history_case(rng, rng.choice([1, 2, 3]))
+                continue
             if i % 40 == 7:
                 e = rng.choice(["2**10 + 3*4", "12345678901234567890 * 98765432109876543210 + 1", "3 + 4 * 5",
                                 "7**7 * 2", "1000000 * 1000000 * 1000000"])
@@ -185,6 +215,19 @@ class C01(Prop):
                     lines.append(mito.met_line(forced, src))
         spaces.append({"name": f"every child slot of a handled node x every ast.expr class ({len(classes)} classes)",
                        "cases": cases})
+        # tool names nothing restricts to identifiers x a few texts x auto-detection and forced pathways
+        cases = []
+        for nm in mito.ODD_TOOLNAMES:
+            for silent in (True, False):
+                lines = mito.header(rng, facts, tools=[(nm, []), ("tool1", ["net"])], silent=silent, ros=(1000, 1))
+                for src in ["t0 + t1", nm + "(t0)", nm.upper() + " (t0)", "tool1(t0)", "t0 < t1", "[t0]", "", "(t0)"]:
+                    lines.append(mito.met_line("auto", src))
+                for src in ["1 + 1", "sqrt(16)", nm + "(1)", "2 > 1 and true", "[1, 2, 3]", "abs(-1)"]:
+                    lines.append(mito.cmet_line("auto", src))
+                lines.append(mito.met_line("tool", nm + "(t0)"))
+                cases.append({"lines": lines, "note": "odd tool name"})
+        spaces.append({"name": f"{len(mito.ODD_TOOLNAMES)} odd tool names (regex-special, empty, long, non-ASCII, "
+                               "equal to allow-listed functions) x texts x auto-detection", "cases": cases})
         # raw strings
         cases = []
         for (s, safe) in mito.raw_strings(self.max_len):
@@ -200,12 +243,21 @@ class C01(Prop):
         return spaces
 
     # --- implementation --------------------------------------------------------------------------------------
+    _fresh = False
+
     def run_impl(self, case):
         lines = case["lines"]
         idx = [i for i, l in enumerate(lines) if not l.startswith("bound ")]
         obs = [None] * len(lines)
         extra = [None] * len(lines)
-        o, x = self.worker.run([lines[i] for i in idx], profile=True)
+        if self._fresh and "history" in case.get("note", ""):      # see c02.py: shrink candidates in a fresh child
+            w = mito.Worker(str(REPO))
+            try:
+                o, x = w.run([lines[i] for i in idx], profile=True)
+            finally:
+                w.close()
+        else:
+            o, x = self.worker.run([lines[i] for i in idx], profile=True)
         for i, a, b in zip(idx, o, x):
             obs[i], extra[i] = a, b
         for i, l in enumerate(lines):
@@ -293,6 +345,8 @@ class C01(Prop):
                         nm = mito.unhexs(a.split(":")[1])
                         if nm not in tools:
                             out.append(Violation("only_registered_tools", "a registered tool", nm, i))
+        if out and "history" in case.get("note", ""):
+            self._fresh = True
         return out
 
     def trigger(self, case):
